@@ -18,7 +18,7 @@ var ensureDocs = []string{
 	`{"a":[1,[2]],"b":{"0":{"1":2}}}`,
 	`[[[1,2,3]]]`,
 }
-var ensureToks = []string{"a", "b", "a~1b", "m~0n", "0", "1", "2", "5"}
+var ensureToks = []string{"a", "b", "a~1b", "m~0n", "0", "1", "2", "5", "01", "+1"}
 
 var (
 	ensureOnce  sync.Once
@@ -83,9 +83,16 @@ func resolveAdded(out *jr.Value, path string) *jr.Value {
 
 // judgeEnsure checks one add (first operation of sc) under EnsurePathExistsOnAdd,
 // possibly followed by further operations.
+// c14Ref: zero-padded and signed digit strings are member names where a container has to be created.
+func c14Ref(o V5Opts) ref.Opts {
+	r := o.Ref()
+	r.ZeroPaddedAreNames = true
+	return r
+}
+
 func judgeEnsure(c *core.Ctx, sc *SeqCase, o V5Opts) {
 	o.EnsurePath = true
-	want := ref.Eval(sc.Doc, sc.Ops, o.Ref())
+	want := ref.Eval(sc.Doc, sc.Ops, c14Ref(o))
 	c.Eval(1)
 	if want.OutOfDom != "" {
 		c.Count("out_of_domain")
